@@ -139,3 +139,23 @@ package graphql
 //@   ensures nStop == old(len(c.subscriptions)) && nUnsub == nStop
 //@   loop 1 invariant nStop + len(c.subscriptions) == old(len(c.subscriptions)) && nUnsub == nStop
 //@   loop 1 invariant forall k string :: visited[k] ==> !(k in c.subscriptions)
+
+// ---- C01: work units keep sources[i] paired with destinations[i]
+
+// A one-element work unit for source/destination i of unit, all other fields copied, made of fresh objects only.
+//@ pred srcOf(w *WorkUnit, unit *WorkUnit, i int) = w != nil && len(w.sources) == 1 && w.sources[0] == unit.sources[i]
+//@ pred dstOf(w *WorkUnit, unit *WorkUnit, i int) = w != nil && len(w.destinations) == 1 && w.destinations[0] == unit.destinations[i]
+//@ pred restOf(w *WorkUnit, unit *WorkUnit) = w != nil && w.field == unit.field && w.selection == unit.selection && w.useBatch == unit.useBatch && w.Ctx == unit.Ctx && w.objectName == unit.objectName
+//@ pred ownUnit(w *WorkUnit) = fresh(w) && allocated(w) && fresh(w.sources) && allocated(w.sources) && fresh(w.destinations) && allocated(w.destinations)
+
+//@ func splitWorkUnit
+//@   requires unit != nil && len(unit.destinations) >= len(unit.sources)
+//@   assigns nothing
+//@   ensures len(result) == len(unit.sources)
+//@   ensures forall i int :: { result[i] } 0 <= i && i < len(result) ==> ownUnit(result[i]) && srcOf(result[i], unit, i) && dstOf(result[i], unit, i) && restOf(result[i], unit)
+//@   loop 1 invariant -1 <= rangeindex && rangeindex < len(unit.sources) && len(workUnits) == rangeindex+1 && fresh(workUnits) && allocated(workUnits)
+//@   loop 1 invariant forall i int :: { workUnits[i] } 0 <= i && i < len(workUnits) ==> ownUnit(workUnits[i])
+//@   loop 1 invariant forall i int :: { workUnits[i] } 0 <= i && i < len(workUnits) ==> srcOf(workUnits[i], unit, i)
+//@   loop 1 invariant forall i int :: { workUnits[i] } 0 <= i && i < len(workUnits) ==> dstOf(workUnits[i], unit, i)
+//@   loop 1 invariant forall i int :: { workUnits[i] } 0 <= i && i < len(workUnits) ==> restOf(workUnits[i], unit)
+//@   loop 1 decreases len(unit.sources) - rangeindex
